@@ -269,9 +269,22 @@ def make_cases(pid, seed, n, start=0, profile_override=None):
         store = ["exact", "static", "superset", "sparse"][i % 4] if pid in ("C11", "C12") else \
             "exact" if pid == "C10" else ["exact", "sparse", "exact", "static", "exact", "superset"][i % 6]
         c.update({"id": i, "op": "exec", "store": store, "failAt": -1, "perStmt": True})
+        if i % 3 == 0:
+            alt_inputs(c, i)
         cases.append(c)
         gens.append(g)
     return cases, gens
+
+
+def alt_inputs(c, i):
+    """other inputs for a second run of the same parse result: every numeric variable text and every balance moved"""
+    import re
+    av = {}
+    for k, v in c.get("vars", {}).items():
+        m = re.fullmatch(r"(.*?)(-?\d+)", v)
+        av[k] = (m.group(1) + str(int(m.group(2)) + 1 + i % 5)) if m and "/" not in v and "%" not in v else v
+    c["altVars"] = av
+    c["altBalances"] = {a: {k: str(int(v) + 3 + i % 7) for k, v in m.items()} for a, m in c.get("balances", {}).items()}
 
 
 def run_model(cases, gos):
